@@ -298,7 +298,7 @@ namespace BitSerializer::Convert::Detail
 			{
 				if (buf != end && (std::isdigit(*buf) || isYear))
 				{
-					if (isYear && *buf == '+') {
+					if (isYear && *buf == '+' && end - buf > 1 && std::isdigit(buf[1])) {
 						++buf;
 					}
 					const std::from_chars_result result = std::from_chars(buf, end, outValue);
